@@ -123,10 +123,11 @@ func cmdCheck(args []string) int {
 	if !*keep {
 		defer os.RemoveAll(tmp)
 	}
-	cfg := SolverCfg{TmpDir: tmp, TimeoutS: 30}
+	cfg := SolverCfg{TmpDir: tmp, TimeoutS: 30, Deadline: t0.Add(240 * time.Second)}
 	if *tier == "thorough" {
 		cfg.TimeoutS = 120
 		cfg.Confirm = true
+		cfg.Deadline = t0.Add(1800 * time.Second)
 	}
 
 	// functions serving the property
@@ -185,6 +186,7 @@ func cmdCheck(args []string) int {
 	var reports []funcReport
 	var samples []map[string]any
 	violations := 0
+	totalReplays := 0
 	newBase := map[string][]string{}
 	os.MkdirAll(filepath.Join(outDir, "replays", *prop), 0o755)
 	for _, f := range frs {
@@ -272,28 +274,33 @@ func cmdCheck(args []string) int {
 			// replay
 			rfile := filepath.Join(outDir, "replays", *prop, safeName(f.res.Short+"#"+full)+".json")
 			var rr ReplayResult
-			if reproducedName[o.Name] || replayTries[o.Name] >= 3 {
+			if reproducedName[normObl(o.Name)] || replayTries[normObl(o.Name)] >= 2 || totalReplays >= 6 || (!cfg.Deadline.IsZero() && time.Now().After(cfg.Deadline.Add(60*time.Second))) {
 				// same obligation in another split case: already replayed; record without a new replay
 				violations++
 				continue
 			}
-			replayTries[o.Name]++
+			replayTries[normObl(o.Name)]++
+			totalReplays++
 			rr = e.tryReplay(vcOf[o], o, f.res, *repo, cfg, rfile, *prop)
 			if rr.Reproduced {
-				reproducedName[o.Name] = true
+				reproducedName[normObl(o.Name)] = true
 			}
 			switch {
 			case rr.Reproduced:
 				violations++
-				if !reportedV[o.Name] {
-					reportedV[o.Name] = true
+				if !reportedV[normObl(o.Name)] {
+					reportedV[normObl(o.Name)] = true
 					fmt.Printf("VIOLATION property=%s replay=%s\n", *prop, rfile)
 				}
 				exit = 1
-			case inBase || len(baseSet) == 0:
+			case inBase || len(baseSet) == 0 ||
+				(o.Result == "sat" && strings.HasPrefix(rr.Outcome, "not-replayable") &&
+					(strings.HasPrefix(o.Kind, "safety") || o.Kind == "call-pre" || o.Kind == "panics")):
+				// in the baseline and no longer discharged, or a definite solver counterexample to a
+				// no-runtime-fault obligation that cannot be replayed for lack of an input builder
 				violations++
-				if !reportedV[o.Name] {
-					reportedV[o.Name] = true
+				if !reportedV[normObl(o.Name)] {
+					reportedV[normObl(o.Name)] = true
 					fmt.Printf("VIOLATION property=%s replay=%s no-failing-input-found\n", *prop, rfile)
 				}
 				exit = 1
